@@ -102,3 +102,10 @@ check("C07", "exploration", "runtime round-trip monitor: harness-escaped logical
       "for single/multi-byte/two-rune/newline/CRLF delimiters, release characters, ignore_crlf noise and segments up to ~60 KiB.",
       "Pairwise distinct, non-nested delimiters. Lone trailing release characters and invalid UTF-8 not generated.",
       "DESIGN.md section 3 C07")
+
+check("C04", "exploration", "runtime differential monitor: idr stream readers and Transform.Read vs whole-document xpath selection on a mirror DOM built from the standard decoders",
+      "Held on every (document, target xpath) pair (quick 1.4e4, thorough 7e5): delivered nodes equal, in document order and with complete subtrees, the outermost "
+      "candidates that satisfy the full xpath, for nested and rejected candidates, zero/one/two trailing predicates, XML with attributes/namespaces/mixed content "
+      "and JSON with any value at any level; with and without Release; end to end under a copy schema.",
+      "antchfx/xpath over a harness-built DOM computes the whole-document selection; out-of-class xpaths never generated.",
+      "DESIGN.md section 3 C04")
